@@ -509,7 +509,7 @@ impl<'d> serde::ser::Serializer for ValueSerializer<'d> {
     type SerializeSeq = SerializeValueArray<'d>;
     type SerializeTuple = SerializeValueArray<'d>;
     type SerializeTupleStruct = SerializeValueArray<'d>;
-    type SerializeTupleVariant = SerializeValueArray<'d>;
+    type SerializeTupleVariant = SerializeValueTupleVariant<'d>;
     type SerializeMap = SerializeValueTable<'d>;
     type SerializeStruct = SerializeValueTable<'d>;
     type SerializeStructVariant = serde::ser::Impossible<Self::Ok, Self::Error>;
@@ -712,12 +712,16 @@ impl<'d> serde::ser::Serializer for ValueSerializer<'d> {
 
     fn serialize_tuple_variant(
         self,
-        _name: &'static str,
-        _variant_index: u32,
-        _variant: &'static str,
+        name: &'static str,
+        variant_index: u32,
+        variant: &'static str,
         len: usize,
     ) -> Result<Self::SerializeTupleVariant, Self::Error> {
-        self.serialize_seq(Some(len))
+        let ser = toml_edit::ser::ValueSerializer::new()
+            .serialize_tuple_variant(name, variant_index, variant, len)
+            .map_err(Error::wrap)?;
+        let ser = SerializeValueTupleVariant::new(self, ser);
+        Ok(ser)
     }
 
     fn serialize_map(self, len: Option<usize>) -> Result<Self::SerializeMap, Self::Error> {
@@ -750,7 +754,7 @@ impl<'d> serde::ser::Serializer for ValueSerializer<'d> {
 #[cfg(feature = "display")]
 use internal::{
     write_document, write_value, SerializeDocumentArray, SerializeDocumentTable,
-    SerializeValueArray, SerializeValueTable,
+    SerializeValueArray, SerializeValueTable, SerializeValueTupleVariant,
 };
 
 #[cfg(feature = "display")]
@@ -924,6 +928,43 @@ mod internal {
         write!(dst, "{doc}").unwrap();
 
         Ok(())
+    }
+
+    type InnerSerializeValueTupleVariant =
+        <toml_edit::ser::ValueSerializer as serde::Serializer>::SerializeTupleVariant;
+
+    #[doc(hidden)]
+    pub struct SerializeValueTupleVariant<'d> {
+        inner: InnerSerializeValueTupleVariant,
+        dst: &'d mut String,
+    }
+
+    impl<'d> SerializeValueTupleVariant<'d> {
+        pub(crate) fn new(
+            ser: ValueSerializer<'d>,
+            inner: InnerSerializeValueTupleVariant,
+        ) -> Self {
+            Self {
+                inner,
+                dst: ser.dst,
+            }
+        }
+    }
+
+    impl serde::ser::SerializeTupleVariant for SerializeValueTupleVariant<'_> {
+        type Ok = ();
+        type Error = Error;
+
+        fn serialize_field<T>(&mut self, value: &T) -> Result<(), Error>
+        where
+            T: serde::ser::Serialize + ?Sized,
+        {
+            self.inner.serialize_field(value).map_err(Error::wrap)
+        }
+
+        fn end(self) -> Result<Self::Ok, Self::Error> {
+            write_value(self.dst, self.inner.end())
+        }
     }
 
     type InnerSerializeValueSeq =
